@@ -35,6 +35,8 @@ def run(ctx):
         s2m_rules(ctx, fs)
     if fm is not None:
         m2s_rules(ctx, fm)
+        rule_taken_reaches(ctx, "C10.I", fm, "bin_sequences",
+                           lambda n: n.get("k") == "for" and "MinimiserGenerator<" in n.get("iter_ty", ""), "run loop")
     if fs is not None and fm is not None:
         agree_rule(ctx, fs, fm)
     window_rule(ctx, "C10.U")
